@@ -250,22 +250,29 @@ def _inproc_run(mod, args):
 
 
 class time_limit:
-    """per-call watchdog (signal based, main thread of a worker): raises TimeoutError inside the block."""
+    """per-call watchdog (signal based, main thread of a worker): raises TimeoutError inside the block.
+    The horizon is counted in CPU time of the process (ITIMER_VIRTUAL), so it does not depend on how busy the machine is; a call that
+    blocks without computing is not caught (the library does not block).  If the timer fired, whatever left the block counts as a
+    timeout - library code may catch the TimeoutError raised inside it and re-raise something else."""
 
     def __init__(self, seconds):
         self.seconds = seconds
+        self.fired = False
 
     def __enter__(self):
         import signal
 
         def handler(signum, frame):
-            raise TimeoutError("no termination within %.1f s" % self.seconds)
-        self.old = signal.signal(signal.SIGALRM, handler)
-        signal.setitimer(signal.ITIMER_REAL, self.seconds)
+            self.fired = True
+            raise TimeoutError("no termination within %.1f s of CPU time" % self.seconds)
+        self.old = signal.signal(signal.SIGVTALRM, handler)
+        signal.setitimer(signal.ITIMER_VIRTUAL, self.seconds)
         return self
 
-    def __exit__(self, *exc):
+    def __exit__(self, exc_type, exc, tb):
         import signal
-        signal.setitimer(signal.ITIMER_REAL, 0)
-        signal.signal(signal.SIGALRM, self.old)
+        signal.setitimer(signal.ITIMER_VIRTUAL, 0)
+        signal.signal(signal.SIGVTALRM, self.old)
+        if self.fired and exc_type is not TimeoutError:
+            raise TimeoutError("no termination within %.1f s of CPU time" % self.seconds)
         return False
